@@ -18,7 +18,7 @@ RULE = (
     "quotient; metamorphic: mag(a*b)=mag(b*a), mag((a*b)/b)=mag(a), a op b computed twice on the same operand "
     "objects gives the model amount both times, every tree with a unit conversion evaluates identically on the "
     "long-lived database of the shard and on a freshly built one, and a battery of products matching one of its unit "
-    "pairs in both directions with exponents +-2, +-3 agrees with the model on the long-lived database, a**n == n-fold product (n up to 3 inside the trees, up to 8 on single Scalars). Also a*b, b*a, a/b, b/a, a*a, a/a, (a*b)/b with a created directly on a derived quantity that writes one quantity type in two units under two categories (m.km, m3/ft3; Scalar, list, ndarray), each computed twice; products and quotients of two Arrays in different container kinds (list, tuple, float64 / int64 / float32 ndarray). One shard runs the trees on the simple length/time filler (units given by formula strings). A squared Array operand is used in two products and a quotient: same values afterwards, same product both times. Non-trivial = some "
+    "pairs in both directions with exponents +-2, +-3 agrees with the model on the long-lived database, a**n == n-fold product (n up to 3 inside the trees, up to 8 on single Scalars). Also a*b, b*a, a/b, b/a, a*a, a/a, (a*b)/b with a created directly on a derived quantity that writes one quantity type in two units under two categories (m.km, m3/ft3; Scalar, list, ndarray), each computed twice; products and quotients of two Arrays in different container kinds (list, tuple, float64 / int64 / float32 ndarray). One shard runs the trees on the simple length/time filler (units given by formula strings). A squared Array operand is used in two products and a quotient: same values afterwards, same product both times. The product and the quotient of an Array with a squared Array of another container kind have the model magnitude. Non-trivial = some "
     "operand is converted (shared type, different units) with exponent != 1, or >= 3 leaves; distinct key = tree."
 )
 ASSUMPTIONS = ["UnitModel slopes come from single-unit float conversions (validated by C01)", "**0 and negative powers are outside the statement"]
@@ -389,6 +389,19 @@ class Checker:
         after = [float(t) for t in b2.GetValues()]
         if before != mid or before != after:
             ctx.fail("operand_changed_by_product", case, "b*b = %r held %r before it was multiplied with %r and holds %r afterwards" % (b2, before, a, after))
+        um = self.um
+        (ua, _ca, _ka, va), (ub, _cb, _kb, vb) = case["a"], case["b"]
+        if "int" not in _ka + _kb:
+            for x, y, g, gq in zip(va, vb, v1, [float(t) for t in q1.GetValues()]):
+                want = x * um.slope[ua] * (y * um.slope[ub]) ** 2
+                wantq = x * um.slope[ua] / (y * um.slope[ub]) ** 2
+                tol = 1e-5 if "f32" in _ka + _kb else 1e-9
+                if "f32" in _ka + _kb and not (1e-30 < abs(g) < 1e30 and 1e-30 < abs(gq) < 1e30):
+                    continue
+                if 1e-250 < abs(want) < 1e250 and not relclose(mag_of(um, r1.GetQuantity(), g), want, tol):
+                    ctx.fail("magnitude_wrong:array_times_squared_array:%s_%s" % tuple(sorted((_ka, _kb))), case, "%r * (%r squared) = %r: %r in base units, model %r" % (a, b, r1, mag_of(um, r1.GetQuantity(), g), want))
+                if 1e-250 < abs(wantq) < 1e250 and not relclose(mag_of(um, q1.GetQuantity(), gq), wantq, tol):
+                    ctx.fail("magnitude_wrong:array_over_squared_array:%s_%s" % tuple(sorted((_ka, _kb))), case, "%r / (%r squared) = %r: %r in base units, model %r" % (a, b, q1, mag_of(um, q1.GetQuantity(), gq), wantq))
         if [float(t) for t in r2.GetValues()] != v1 or repr(r2.GetQuantity()) != repr(r1.GetQuantity()):
             ctx.fail("product_not_repeatable:arrays", case, "%r * %r gives %r and then %r" % (a, b2, r1, r2))
         ctx.cls("array_operand_reused")
